@@ -390,11 +390,19 @@ def run_check(spec, tier, seed):
             undecided.append(r)
     exit_code = 0
     confirmed = []
+    max_replays = int(os.environ.get("VERIF_MAX_REPLAYS", "3"))
+    n_reproduced = 0
     for h, r in violations:
         if os.environ.get("VERIF_NO_REPLAY"):
             ok, rpath, detail = True, "(replay skipped)", {}
+        elif n_reproduced >= max_replays:
+            # enough counterexamples of this run reproduced natively; the remaining failing harnesses are reported
+            # with the solver verdict only (each replay costs a native rebuild)
+            ok, rpath, detail = True, "(not replayed: %d other counterexamples of this run reproduced natively)" % n_reproduced, {}
         else:
             ok, rpath, detail = playback(h, r.get("group") or spec["group"], pid)
+            if ok:
+                n_reproduced += 1
         r["replay"] = rpath
         if ok:
             r["verdict"] = "violation"
